@@ -160,12 +160,70 @@ func c15(c *Ctx) {
 				}
 			}
 		}
-		// a witness must have a distinguishable "not found" initial value: pointer/interface nil, bool false
+		// integer witnesses: initialised once to a constant sentinel outside the match (found := -1), assigned under the match
+		// otherwise; a fact that the sentinel does not satisfy establishes "found"
+		sentinel := map[types.Object]int64{}
+		for o := range wit {
+			b, ok := o.Type().Underlying().(*types.Basic)
+			if !ok || b.Info()&types.IsInteger == 0 {
+				continue
+			}
+			nOutside, k, okK := 0, int64(0), false
+			for _, x := range g.Nodes {
+				as, isAs := x.N.(*ast.AssignStmt)
+				if !isAs || len(as.Lhs) != len(as.Rhs) {
+					continue
+				}
+				for i, l := range as.Lhs {
+					if objOf(tinfo, l) != o {
+						continue
+					}
+					if d, _ := g.DominatedByEdges(x, matchEdge); d {
+						continue
+					}
+					nOutside++
+					k, okK = constInt(tinfo, as.Rhs[i])
+				}
+			}
+			if nOutside == 1 && okK {
+				sentinel[o] = k
+			}
+		}
+		// a witness must have a distinguishable "not found" initial value: pointer/interface nil, bool false, integer sentinel
 		foundEdge := func(e *GEdge) bool {
 			if matchEdge(e) {
 				return true
 			}
 			return edgeImplies(e, func(cnd ast.Expr, pol int) bool {
+				if l, op, r, ok := cmpNorm(cnd, pol); ok {
+					excl := func(w ast.Expr, op token.Token, cexp ast.Expr) bool {
+						o := objOf(tinfo, w)
+						k, has := sentinel[o]
+						cv, isC := constInt(tinfo, cexp)
+						if o == nil || !has || !isC {
+							return false
+						}
+						// the sentinel does not satisfy (w op cv)
+						switch op {
+						case token.EQL:
+							return false
+						case token.NEQ:
+							return k == cv
+						case token.LSS:
+							return k >= cv
+						case token.LEQ:
+							return k > cv
+						case token.GEQ:
+							return k < cv
+						case token.GTR:
+							return k <= cv
+						}
+						return false
+					}
+					if excl(l, op, r) || excl(r, flipOp(op), l) {
+						return true
+					}
+				}
 				if nn, ok := nilCmp(tinfo, cnd, pol, func(x ast.Expr) bool { o := objOf(tinfo, x); return o != nil && wit[o] }); ok {
 					return nn
 				}
@@ -480,21 +538,38 @@ func c15(c *Ctx) {
 			return
 		}
 		info := ix.Pkg.TypesInfo
+		// what each way of looking at the flag answers once it is set: Load() and Swap(true) report true, CompareAndSwap(false, true)
+		// reports false (whichever the code uses; `method` names the one found on the pinned tree)
+		_ = method
+		whenSet := func(e ast.Expr) (bool, bool) {
+			e = unparen(e)
+			if fieldMethodCall(info, e, f, "Load") != nil || fieldMethodCall(info, e, f, "Swap") != nil {
+				return true, true
+			}
+			if fieldMethodCall(info, e, f, "CompareAndSwap") != nil {
+				return false, true
+			}
+			return false, false
+		}
 		flagVars := map[types.Object]bool{}
 		inspectNoLit(fn.Body(), func(n ast.Node) bool {
-			if as, ok := n.(*ast.AssignStmt); ok && len(as.Lhs) == 1 && len(as.Rhs) == 1 && fieldMethodCall(info, unparen(as.Rhs[0]), f, method) != nil {
-				if o := objOf(info, as.Lhs[0]); o != nil {
-					flagVars[o] = true
+			if as, ok := n.(*ast.AssignStmt); ok && len(as.Lhs) == 1 && len(as.Rhs) == 1 {
+				if v, is := whenSet(as.Rhs[0]); is {
+					if o := objOf(info, as.Lhs[0]); o != nil {
+						flagVars[o] = v
+					}
 				}
 			}
 			return true
 		})
 		env := func(e ast.Expr) (constant.Value, bool) {
-			if call := fieldMethodCall(info, e, f, method); call != nil {
-				return constant.MakeBool(true), true
+			if v, is := whenSet(e); is {
+				return constant.MakeBool(v), true
 			}
-			if o := objOf(info, e); o != nil && flagVars[o] {
-				return constant.MakeBool(true), true
+			if o := objOf(info, e); o != nil {
+				if v, has := flagVars[o]; has {
+					return constant.MakeBool(v), true
+				}
 			}
 			return nil, false
 		}
@@ -526,7 +601,14 @@ func c15(c *Ctx) {
 				bad = append(bad, "channel send")
 			}
 		}
-		hasTest := len(nodesIn(fn, func(n ast.Node) bool { return fieldMethodCall(info, n, f, method) != nil })) > 0
+		hasTest := len(nodesIn(fn, func(n ast.Node) bool {
+			e, ok := n.(ast.Expr)
+			if !ok {
+				return false
+			}
+			_, is := whenSet(e)
+			return is
+		})) > 0
 		c.Check(hasTest && len(bad) == 0, "R3", shortPkg(ix.Pkg.PkgPath)+"|"+fname+"|stopped ⇒ returns without touching processors/exporters", at(ix.M, fn.Pos()),
 			"nothing is reachable with the flag set", "after shutdown the call still reaches "+strings.Join(bad, ","))
 	}
